@@ -23,6 +23,9 @@ BODIES = {
     'single-response': {'jsonrpc': '2.0', 'id': 1, 'result': 1},
     'null': None, 'number': 7, 'string': 'x', 'empty-object': {}, 'object': {'foo': 1}, 'array-of-scalars': [1, 2],
     'array-with-bad-element': [{'jsonrpc': '2.0', 'id': 1}], 'wrong-version': [{'jsonrpc': '1.0', 'id': 1, 'result': 1}],
+    'batch-error-without-version': {'id': None, 'error': {'code': -32600, 'message': 'Invalid Request'}},
+    'batch-error-wrong-version': {'jsonrpc': '1.0', 'id': None, 'error': {'code': -32600, 'message': 'Invalid Request'}},
+    'element-with-null-error': [{'jsonrpc': '2.0', 'id': 1, 'result': 5, 'error': None}],
 }
 
 
@@ -63,6 +66,9 @@ def apply_program(responses: List[Dict[str, Any]], program: List[List[Any]]) -> 
                 el['id'] = 1.0
         elif k == 'null':
             body[op[1] % n]['id'] = None
+        elif k == 'add-null-error':
+            # the server reports an error it cannot attribute to a call (an element it could not parse): id null
+            body.insert(op[1] % (n + 1), {'jsonrpc': '2.0', 'id': None, 'error': {'code': -32600, 'message': 'Invalid Request', 'data': 'element 7'}})
     return body
 
 
@@ -105,7 +111,7 @@ class C08(Check):
         "cases: batches of 1..4 calls (+ 0..2 notifications) with ids from six id sets (integers incl. 0, strings incl. '', numeric-looking "
         "strings next to integers, negatives, 10^30); the correct response array (every success / error mix) is perturbed by a response "
         "program: (a) enumerated in both tiers for n <= 3 (thorough: n <= 4): every permutation x every single fault {none, omit i, "
-        "duplicate i, add an unrequested id, retype id i (1<->'1', true, 1.0), null id i} and every whole-body replacement (batch-level "
+        "duplicate i, add an unrequested id, add an error object with a null id, retype id i (1<->'1', true, 1.0), null id i} and every whole-body replacement (batch-level "
         "error objects, a single response object, null / number / string / {} / arrays of non-responses); (b) Hypothesis: up to 3 stacked "
         "operations; single calls: id relation {equal, different, null, type-confused} x body shape. x strict on/off x sync/async, read via "
         "batch.send (positional access, .related, .result) and via batch.add(...).call(). Oracle: reference relation - not a response "
@@ -122,7 +128,7 @@ class C08(Check):
     required_classes = ['verdict/ok', 'verdict/identity', 'verdict/deser', 'verdict/batch-error', 'op/perm', 'op/omit', 'op/dup', 'op/add',
                         'op/retype', 'op/null', 'op/replace-body', 'single/equal', 'single/different', 'single/null', 'single/type-confused',
                         'strict/on', 'strict/off', 'client/sync', 'client/async', 'reordered-ok', 'error-mix',
-                        'non-strict/faulty-body-accepted']
+                        'non-strict/faulty-body-accepted', 'server-error-without-id-next-to-all-answers']
 
     # ---- generation ------------------------------------------------------------------------------------
 
@@ -130,7 +136,7 @@ class C08(Check):
         faults: List[Optional[List[Any]]] = [None]
         for i in range(n):
             faults += [['omit', i], ['dup', i], ['null', i], ['retype', i, 'swap'], ['retype', i, 'bool'], ['retype', i, 'float']]
-        faults += [['add', 'zz', 0], ['add', 99, n]]
+        faults += [['add', 'zz', 0], ['add', 99, n], ['add-null-error', 0], ['add-null-error', n]]
         for perm in itertools.permutations(range(n)):
             for f in faults:
                 yield [['perm', list(perm)]] + ([f] if f else [])
@@ -168,7 +174,7 @@ class C08(Check):
             st.builds(lambda i: ['omit', i], st.integers(0, 3)), st.builds(lambda i: ['dup', i], st.integers(0, 3)),
             st.builds(lambda i, p: ['add', i, p], st.sampled_from(['zz', 99, '1', 0, -7]), st.integers(0, 4)),
             st.builds(lambda i, t: ['retype', i, t], st.integers(0, 3), st.sampled_from(['swap', 'swap', 'bool', 'float'])),
-            st.builds(lambda i: ['null', i], st.integers(0, 3)),
+            st.builds(lambda i: ['null', i], st.integers(0, 3)), st.builds(lambda p: ['add-null-error', p], st.integers(0, 4)),
             st.builds(lambda b: ['replace-body', b], st.sampled_from(sorted(BODIES))),
         )
         batch = st.builds(
@@ -182,7 +188,7 @@ class C08(Check):
             lambda c, s, i, rel, shape: {'mode': 'single', 'client': c, 'strict': s, 'id': i, 'relation': rel, 'shape': shape},
             st.sampled_from(['sync', 'async']), st.booleans(), jg.cheap_call_id(),
             st.sampled_from(['equal', 'equal', 'different', 'null', 'type-confused', 'bool', 'float']),
-            st.sampled_from(['result', 'result-null', 'error', 'error-typed', 'not-response', 'array', 'scalar', 'both']),
+            st.sampled_from(['result', 'result-null', 'error', 'error-typed', 'not-response', 'array', 'scalar', 'both', 'result-and-null-error', 'error-without-message']),
         )
         return st.one_of(batch, batch, single)
 
@@ -195,6 +201,9 @@ class C08(Check):
             {'mode': 'batch', 'client': 'sync', 'strict': True, 'calls': [{'id': 1, 'outcome': 'ok'}], 'notifications': 0, 'program': [['retype', 0, 'bool']]},
             {'mode': 'single', 'client': 'sync', 'strict': True, 'id': 1, 'relation': 'bool', 'shape': 'result'},
             {'mode': 'single', 'client': 'sync', 'strict': True, 'id': 1, 'relation': 'equal', 'shape': 'both'},
+            {'mode': 'single', 'client': 'sync', 'strict': True, 'id': 1, 'relation': 'equal', 'shape': 'result-and-null-error'},
+            {'mode': 'single', 'client': 'async', 'strict': False, 'id': 1, 'relation': 'equal', 'shape': 'result-and-null-error'},
+            {'mode': 'single', 'client': 'sync', 'strict': True, 'id': 1, 'relation': 'equal', 'shape': 'error-without-message'},
         ]
 
     # ---- run -------------------------------------------------------------------------------------------
@@ -252,6 +261,18 @@ class C08(Check):
                     discs.append(Disc("C08/send/position-not-in-call-order", f"position {k} holds id {resp[k].id!r}, call {k} has id {req.id!r} (extra null-id element present) | {where}"))
                     break
 
+        # a server error without id next to a complete set of answers: whether the client refuses the array is left open, but the error
+        # is a server error and must reach the caller as an exception - it cannot silently disappear
+        null_errors = [el for el in body if isinstance(el, dict) and el.get('id') is None and 'error' in el] if isinstance(body, list) else []
+        if verdict == 'undecided' and null_errors:
+            classes_extra.append('server-error-without-id-next-to-all-answers')
+            if exc is None and resp is not None:
+                try:
+                    got = resp.result
+                    discs.append(Disc("C08/send/server-error-without-id-swallowed", f"result {got!r} | {where}"))
+                except Exception:
+                    pass
+
         # whatever the mode and the faults: a response the client ACCEPTED and linked is linked to the request with the same id
         # (type-aware), and a response whose id was requested and occurs once in the body is linked to exactly that request
         if exc is None and resp is not None and resp.is_success:
@@ -282,6 +303,8 @@ class C08(Check):
             value, exc2 = None, e
         if judged:
             discs += self._judge_call(verdict, payload, value, exc2, calls, where)
+        elif verdict == 'undecided' and null_errors and exc2 is None:
+            discs.append(Disc("C08/call/server-error-without-id-swallowed", f"call() returned {value!r} | {where}"))
 
         classes = [f"verdict/{verdict}", 'strict/on' if strict else 'strict/off', f"client/{kind}", f"n={len(calls)}"] + classes_extra
         for op in spec['program']:
@@ -392,6 +415,8 @@ class C08(Check):
             'error': {'jsonrpc': '2.0', 'id': resp_id, 'error': err}, 'error-typed': {'jsonrpc': '2.0', 'id': resp_id, 'error': typed_err},
             'not-response': {'jsonrpc': '2.0', 'id': resp_id}, 'array': [{'jsonrpc': '2.0', 'id': resp_id, 'result': 'r'}], 'scalar': 5,
             'both': {'jsonrpc': '2.0', 'id': resp_id, 'result': 0, 'error': err},
+            'result-and-null-error': {'jsonrpc': '2.0', 'id': resp_id, 'result': 5, 'error': None},
+            'error-without-message': {'jsonrpc': '2.0', 'id': resp_id, 'error': {'code': -32601}},
         }[shape]
         text = json.dumps(body)
         client = ch.make_client(kind, lambda t, n, k: text, strict=strict, id_gen_impl=lambda: iter([rid]))
@@ -406,7 +431,7 @@ class C08(Check):
             resp, exc_send = None, e
         where = f"client={kind} strict={strict} request id={rid!r} relation={rel} shape={shape} body={text}"
         discs: List[Disc] = []
-        malformed = shape in ('not-response', 'array', 'scalar', 'both') or rel in ('bool', 'float')
+        malformed = shape in ('not-response', 'array', 'scalar', 'both', 'result-and-null-error', 'error-without-message') or rel in ('bool', 'float')
         mismatch = strict and resp_id is not None and not typed_eq(resp_id, rid)
         for what, v, e in (('call', value, exc), ('send', resp, exc_send)):
             if malformed:
